@@ -924,16 +924,19 @@ def get_charnos(node: ast.AST, source: str, keep_first_indent: bool = False) -> 
     )
 
     code = source[start_charno:end_charno]
-    if code and code[0] == " ":
+    # The spaces of the literal parts of an f-string are part of the string
+    is_string = isinstance(node, ast.Constant) and isinstance(node.value, str)
+    if code and code[0] == " " and not is_string:
         whitespace = max(re.findall(r"\A^ *", code), key=len)
         start_charno += len(whitespace)
-    if code and code[-1] == " ":
+    if code and code[-1] == " " and not is_string:
         whitespace = max(re.findall(r" *\Z$", code), key=len)
         end_charno -= len(whitespace)
-    if start_charno > 0 and source[start_charno - 1] == "@" and isinstance(
-        node, (ast.ClassDef, ast.FunctionDef, ast.AsyncFunctionDef)
-    ):
-        start_charno -= 1
+    if isinstance(node, (ast.ClassDef, ast.FunctionDef, ast.AsyncFunctionDef)) and start is not node:
+        # The @ may be separated from the decorator, as in "@ foo" or "@(\n    foo)"
+        at_sign = re.search(r"@[\s(\\]*\Z", source[:start_charno])
+        if at_sign:
+            start_charno = at_sign.start()
     if keep_first_indent:
         whitespace = max(re.findall(r" *\Z$", source[:start_charno]), key=len)
         start_charno -= len(whitespace)
